@@ -288,7 +288,7 @@ def mkOp (st : St) (kind : String) (args : List String) : St × List String :=
 
 def declKind (op : String) : Option String :=
   [("var", "Var"), ("field", "Field"), ("bitfield", "Bitfield"), ("typedecl", "Typedecl"), ("alias", "Alias"),
-   ("fundecl", "Fundecl"), ("template", "Template")].lookup op
+   ("fundecl", "Fundecl"), ("template", "Template"), ("template2", "Template")].lookup op
 
 def udtKind (op : String) : Option String :=
   [("class", "Class"), ("union", "Union"), ("namespace", "Namespace"), ("closure", "Closure"), ("enum", "Enum")].lookup op
